@@ -580,6 +580,12 @@ Definition prog_regional_maximum_ties_are_ok : expr :=
 Example regional_maximum_ties_are_ok_ok : accepts prog_regional_maximum_ties_are_ok = true.
 Proof. vm_compute. reflexivity. Qed.
 
+(* regional_maximum_at: the term of regional_maximum with a symbolic structure radius r *)
+Definition prog_regional_maximum_at (r : nat) : expr :=
+  (Select (Glob 11 [(Select (Select (Pw 2 [(Loc r 12 Img)]) (ErodeP r MaskE) FalseC) MaskE FalseC)]) (Glob 13 [(Select (Select (Pw 2 [(Loc r 12 Img)]) (ErodeP r MaskE) FalseC) MaskE FalseC)]) (Select (Select (Pw 2 [(Loc r 12 Img)]) (ErodeP r MaskE) FalseC) MaskE FalseC)).
+Lemma regional_maximum_at_ok : forall r, accepts (prog_regional_maximum_at r) = true.
+Proof. intros r. unfold accepts, prog_regional_maximum_at. cbn. rewrite ?PeanoNat.Nat.leb_refl. cbn. reflexivity. Qed.
+
 Definition listed_progs : list expr :=
   [prog_median_filter; prog_grey_erosion; prog_grey_dilation; prog_opening; prog_closing; prog_white_tophat; prog_black_tophat; prog_openlines; prog_sobel; prog_hsobel; prog_vsobel; prog_prewitt; prog_hprewitt; prog_vprewitt; prog_roberts; prog_canny; prog_laplacian_of_gaussian; prog_variance_transform; prog_circular_average_filter; prog_smooth_with_function_and_mask; prog_stretch; prog_fit_polynomial; prog_circular_hough; prog_convex_hull_transform; prog_regional_maximum; prog_bridge; prog_clean; prog_diag; prog_endpoints; prog_branchpoints; prog_fill; prog_fill4; prog_hbreak; prog_vbreak; prog_majority; prog_remove; prog_spur; prog_thicken; prog_thin; prog_skeletonize].
 Definition binary_progs : list expr :=
